@@ -40,7 +40,7 @@ def _float_equal(v, x, precision):
 
 
 def conforms(s, v):
-    if isinstance(s, custom.FwdSchema):
+    if isinstance(s, custom.FWD_CLASSES):
         return conforms(s.props.inner, v)
     if isinstance(s, GenericTypeAliasSchema):
         return conforms(s.props.type, v)
